@@ -350,7 +350,7 @@ def tie(ctx):
     for f in fails[:3]:
         dis.append({'what': 'JSON hypothesis / round trip does not hold on the real code: ' + f['class'], 'case': f['case'],
                     'observed': f.get('observed')})
-    n_conc = tie_concurrent(ctx, dist, dis)
+    n_conc = tie_concurrent(ctx, dist, dis) + tie_holder(ctx, dist, dis)
     return {
         'evaluations': len(terms) + dist['truncation_fetches'] + n_conc + dist['json_extra_data_fetches'],
         'distinct_nontrivial': nontriv + dist['truncation_fetches'] - dist['truncation_files'],
@@ -629,8 +629,10 @@ GARBAGE = [b'', b'{', b'not json', b'[1, 2]', b'5', b'"x"', b'{"a": 1}', b'{"a":
            b'\xff\xfe\x00', b'null', b'{"g": [1]}']
 
 
-def fetch_through_cache(cls, items, crc, cache, ver=7):
-    """real TocFetcher with the given real TocCache, honest device.  Returns (toc, finished count, exceptions, n requests)"""
+def fetch_through_cache(cls, items, crc, cache, ver=7, holder=None, probes=()):
+    """real TocFetcher with the given real TocCache, honest device.  probes: positions at which lookups are made on
+    the holder ('pre' before start, 'start' before the INFO reply, 'mid' after every delivered packet).
+    Returns (toc, finished count, exceptions, n requests[, first probe mismatch])"""
     from cflib.crazyflie.toc import Toc, TocFetcher
     from cflib.crazyflie.log import LogTocElement
     from cflib.crazyflie.param import ParamTocElement
@@ -638,10 +640,23 @@ def fetch_through_cache(cls, items, crc, cache, ver=7):
     tr = []
     cf = fk.FakeCF(ver, tr)
     dev = fk.PyDev(c03.raw_items(cls, items), crc, b'')
-    holder = Toc()
+    holder = Toc() if holder is None else holder
+    bad = []
+
+    def probe(where, k=0):
+        if where in probes:
+            b = c03.probe_lookups(holder, hints=(0, len(items) - 1), step=k)
+            # what a value reply / user code does: by id and by complete name for entries of the device table
+            for it in items[:2]:
+                holder.get_element_by_complete_name(bytes(it['group']).decode('latin-1').replace('.', '_') + '.'
+                                                    + bytes(it['name']).decode('latin-1').replace('.', '_'))
+            if b and not bad:
+                bad.append('%s (%s)' % (b, where))
+    probe('pre')
     f = TocFetcher(cf, LogTocElement if cls == 'log' else ParamTocElement, port, holder, lambda: tr.append(('fin',)), cache)
     f.start()
-    for _ in range(len(items) + 3):
+    probe('start')
+    for k in range(len(items) + 3):
         reqs = cf.sent(port, 0)
         if any(t == ('fin',) for t in tr):
             break
@@ -649,7 +664,157 @@ def fetch_through_cache(cls, items, crc, cache, ver=7):
         if r is None:
             break
         cf.deliver(port, 0, r)
-    return holder, sum(1 for t in tr if t == ('fin',)), [t for t in tr if t[0] == 'raised'], len(cf.sent(port, 0))
+        probe('mid', k + 1)
+    res = (holder, sum(1 for t in tr if t == ('fin',)), [t for t in tr if t[0] == 'raised'], len(cf.sent(port, 0)))
+    return res + ((bad[0] if bad else None),) if probes else res
+
+
+def hit_lookup_case(case):
+    """download + store, then a NEW session that hits the cache, with lookups on the holder at the given points of
+    both sessions, on a fresh holder or on the same Toc object reused after clear(): the loaded table must be the
+    stored one through ALL THREE lookup paths (dict, by id for every index, by name / complete name for every entry)"""
+    from cflib.crazyflie.toc import Toc
+    from cflib.crazyflie.toccache import TocCache
+    items = [c03.ditem_unjson(d) for d in case['items']]
+    cls, crc, ver = case['cls'], case['crc'], case['ver']
+    root = mkdtemp()
+
+    def fail(klass, detail):
+        return {'class': klass, 'case': case, 'detail': detail, 'observed': detail,
+                'expected': 'loaded table identical to the stored one through every lookup path'}
+    try:
+        holder = Toc()
+        h, fins, exc, nreq, pb = fetch_through_cache(cls, items, crc, TocCache(rw_cache=root), ver, holder, tuple(case['probes1']) or ('none',))
+        bad = ('raised %r' % (exc[0][1:],)) if exc else ('finished %d times' % fins) if fins != 1 else pb or c03.check_table(cls, items, h)
+        if bad:
+            return fail('download_session_wrong', bad)
+        for sess in range(case.get('sessions', 1)):
+            if case['reuse']:
+                holder.clear()
+            else:
+                holder = Toc()
+            cache = TocCache(ro_cache=root) if case.get('ro') else TocCache(rw_cache=root)
+            h, fins, exc, nreq, pb = fetch_through_cache(cls, items, crc, cache, ver, holder, tuple(case['probes2']) or ('none',))
+            if exc:
+                return fail('hit_session_raises', 'raised %r' % (exc[0][1:],))
+            if fins != 1:
+                return fail('hit_session_not_finished_once', 'finished %d times' % fins)
+            if items and nreq != 1:
+                return fail('stored_table_not_used', 'the stored table was not used: %d requests' % nreq)
+            if pb:
+                return fail('cached_table_invisible_to_lookups', pb)
+            bad = c03.check_table(cls, items, h)
+            if bad:
+                return fail('cached_table_invisible_to_lookups' if bad.startswith(('get_element', 'lookup')) else 'loaded_differs_from_stored', bad)
+            pb = c03.probe_lookups(h, hints=tuple(range(min(len(items), 6))))
+            if pb:
+                return fail('cached_table_invisible_to_lookups', pb + ' (after the hit)')
+        return None
+    finally:
+        shutil.rmtree(root, ignore_errors=True)
+
+
+def gen_hit_lookup_cases(rng, count):
+    out = []
+    pos = [[], ['pre'], ['start'], ['pre', 'start'], ['mid'], ['start', 'mid'], ['pre', 'start', 'mid']]
+    for k in range(count):
+        cls = rng.choice(['log', 'param'])
+        ver = rng.choice([3, 7])
+        items = c03.gen_items(rng, cls, rng.choice([1, 2, 3, 6]), ver >= 4)
+        for it in items:
+            it['ext'] = False
+        out.append({'kind': 'hit_lookup', 'cls': cls, 'ver': ver, 'items': [c03.ditem_json(i) for i in items], 'crc': rng.getrandbits(32),
+                    'probes1': pos[k % len(pos)], 'probes2': pos[(k // 2 + 1) % len(pos)], 'reuse': k % 3 != 0, 'ro': k % 4 == 3,
+                    'sessions': 1 + (k % 2)})
+    return out
+
+
+def q_hops(ops):
+    out = []
+    for o in ops:
+        if o[0] == 'add':
+            out.append('OAdd %s' % c03.q_elem(o[1]))
+        elif o[0] == 'clear':
+            out.append('OClear')
+        elif o[0] == 'install':
+            out.append('OInstall %s' % c03.q_toc(o[1]))
+        elif o[0] == 'id':
+            out.append('OById %s' % coqrun.z(o[1]))
+        elif o[0] == 'gn':
+            out.append('OByName %s %s' % (c03.q_str(o[1]), c03.q_str(o[2])))
+        else:
+            out.append('OByCN %s' % c03.q_str(o[1]))
+    return '[' + '; '.join(out) + ']'
+
+
+def run_holder(ops):
+    """the real Toc object under a history of add_element / clear / `toc.toc = table` / lookups"""
+    from cflib.crazyflie.toc import Toc
+    t = Toc()
+    ans = []
+    for o in ops:
+        if o[0] == 'add':
+            t.add_element(c03.mk_elem_obj(o[1]))
+        elif o[0] == 'clear':
+            t.clear()
+        elif o[0] == 'install':
+            t.toc = c03.mk_toc_obj(o[1])
+        else:
+            try:
+                if o[0] == 'id':
+                    e = t.get_element_by_id(o[1])
+                elif o[0] == 'gn':
+                    e = t.get_element(bytes(o[1]).decode('latin-1'), bytes(o[2]).decode('latin-1'))
+                else:
+                    e = t.get_element_by_complete_name(bytes(o[1]).decode('latin-1'))
+                ans += [0] if e is None else [1] + c03.enc_elem(e)
+            except Exception as x:  # noqa
+                ans += [2, c03.EXN.get(type(x).__name__, 99)]
+    return ans
+
+
+def gen_holder_ops(rng):
+    ops = []
+    tabs = [gen_table(rng, n=rng.choice([1, 2, 4])) for _ in range(2)]
+    known = [e for t in tabs for _, d in t for _, e in d]
+    for _ in range(rng.randint(4, 14)):
+        r = rng.random()
+        if r < 0.15:
+            ops.append(('add', dict(rng.choice(known), persistent=False)))
+        elif r < 0.22:
+            ops.append(('clear',))
+        elif r < 0.4:
+            ops.append(('install', rng.choice(tabs + [[]])))
+        elif r < 0.65:
+            ops.append(('id', rng.choice([0, 1, 2, 3, 65535, rng.choice(known)['ident']])))
+        elif r < 0.82:
+            e = rng.choice(known)
+            ops.append(('gn', e['group'], e['name']) if rng.random() < 0.8 else ('gn', b'no', b'such'))
+        else:
+            e = rng.choice(known)
+            ops.append(('cn', bytes(e['group']) + b'.' + bytes(e['name'])))
+    return ops
+
+
+HEADER_O = HEADER.replace('C11.Model.', 'C11.Model C11.Observers.')
+
+
+def tie_holder(ctx, dist, dis):
+    rng = ctx.rng
+    terms, exp, cs = [], [], []
+    for _ in range(ctx.scale(50, 500)):
+        ops = gen_holder_ops(rng)
+        terms.append('enc_answers (snd (hrun [] %s))' % q_hops(ops))
+        exp.append(run_holder(ops))
+        cs.append(ops)
+    for bi, mv in c03.compare_blocks(HEADER_O, terms, exp, tag='c11o', shard=max(2, len(terms) // 10 + 1)):
+        dis.append({'what': 'Toc holder under add/clear/install/lookup histories: model (pure observers) and implementation differ',
+                    'ops': repr([o[:1] + tuple(x if isinstance(x, int) else '..' for x in o[1:2]) for o in cs[bi]])[:600],
+                    'model': None if mv is None else mv[:40], 'impl': exp[bi][:40]})
+        if len(dis) > 6:
+            break
+    dist['holder_histories'] = len(terms)
+    return len(terms)
 
 
 def oracle_garbage(rng, fails):
@@ -834,6 +999,9 @@ def _run_case(case, rng):
     if case.get('kind') == 'collision':
         f = oracle_collision(case)
         return [f] if f else []
+    if case.get('kind') == 'hit_lookup':
+        f = hit_lookup_case(case)
+        return [f] if f else []
     if case.get('kind') == 'concurrent':
         f = concurrent_case(case)
         return [f] if f else []
@@ -919,6 +1087,12 @@ def oracle(ctx, deep=False):
         finally:
             shutil.rmtree(root, ignore_errors=True)
     n += oracle_crc_suffix(rng, fails, ctx.scale(12, 120))
+    # cache hit with lookups on the holder at every point of both sessions, holder reused across sessions
+    for case in gen_hit_lookup_cases(rng, ctx.scale(42, 300) * (2 if deep else 1)):
+        n += 1
+        f = hit_lookup_case(case)
+        if f:
+            fails.append(f)
     # several TocCache objects storing into one rw directory from parallel threads, scripted interleavings
     for _ in range(ctx.scale(30, 300) * (2 if deep else 1)):
         jobs, sched = gen_concurrent(rng)
